@@ -355,9 +355,13 @@ def createInstance (beh : Beh) : Nat → State → Nat → Desc → State × Exc
 termination_by structural f => f
 end
 
-/-- enough fuel for every acyclic configuration: each level of the dependency nesting spends a
-bounded number of units -/
-def fuelFor (st : State) : Nat := 4 * (st.descs.length + 2) * (st.descs.length + 2) + 16
+/-- the largest number of dependencies any registration declares -/
+def maxDeps (descs : List Desc) : Nat := (descs.map (fun d => d.deps.length)).foldr max 0
+
+/-- enough fuel for every acyclic configuration (proved: `GodiProofs/Container/Terminates.lean`): the
+dependency nesting is at most `descs.length + 1` levels deep and one level spends at most
+`descs.length + maxDeps descs + 6` units (one per argument, one per group member, a constant for the calls) -/
+def fuelFor (st : State) : Nat := (st.descs.length + 2) * (st.descs.length + maxDeps st.descs + 6) + 16
 
 /-! ### scopes -/
 
